@@ -35,7 +35,8 @@ Definition mk_oracle (fs : list (nat * wres)) : oracle :=
            end.
 
 Definition dec_iqtype (z : Z) : option iqtype :=
-  if z =? 0 then Some TGet else if z =? 1 then Some TSet else if z =? 2 then Some TOther else None.
+  if z =? 0 then Some TGet else if z =? 1 then Some TSet else if z =? 2 then Some TOther
+  else if z =? 3 then Some TPending else None.
 Definition dec_op (x : sx) : option op :=
   match x with
   | SL [SZ 0; SS d; nz] => do b <- as_b nz; Some (OSend d b)
@@ -45,10 +46,10 @@ Definition dec_op (x : sx) : option op :=
   end.
 Definition dec_cfg (x : sx) : option config :=
   match x with
-  | SL [comp; sm; lg; conn] =>
-      do c <- as_b comp; do s <- as_b sm; do l <- as_b lg; do n <- as_z conn;
+  | SL [comp; sm; lg; conn; ws] =>
+      do c <- as_b comp; do s <- as_b sm; do l <- as_b lg; do n <- as_z conn; do w <- as_b ws;
       Some (mkC (if c then RComponent else RClient) s l
-                (if n =? 0 then CUp else if n =? 1 then CNone else CFresh))
+                (if n =? 0 then CUp else if n =? 1 then CNone else CFresh) w)
   | _ => None
   end.
 
@@ -56,7 +57,7 @@ Inductive cinput :=
 | ISeq (cfg : config) (so lo : list (nat * wres)) (ops : list op)
 | ILogger (so lo : list (nat * wres)) (ps : list str)
 | IConc (senders : list (list str)) (sched : list nat)
-| IWs (sm : bool) (k0 : nat) (ops : list op).
+| IWs (sm lg : bool) (k0 : nat) (ops : list op).
 
 Definition dec_input (x : sx) : option cinput :=
   match x with
@@ -68,8 +69,9 @@ Definition dec_input (x : sx) : option cinput :=
       do p <- as_list as_s ps; Some (ILogger s l p)
   | SL [SZ 2; senders; sched] =>
       do s <- as_list (as_list as_s) senders; do sc <- as_list as_nat sched; Some (IConc s sc)
-  | SL [SZ 3; sm; k0; ops] =>
-      do s <- as_b sm; do k <- as_nat k0; do o <- as_list dec_op ops; Some (IWs s k o)
+  | SL [SZ 3; sm; lg; k0; ops] =>
+      do s <- as_b sm; do l <- as_b lg; do k <- as_nat k0; do o <- as_list dec_op ops;
+      Some (IWs s l k o)
   | _ => None
   end.
 
@@ -100,9 +102,11 @@ Definition run_typed (i : cinput) : sx :=
   | IConc senders sched =>
       let '(w, rest, ok) := run_sched senders sched in
       SL [strs_sx w; SB ok; SB (all_doneb rest)]
-  | IWs sm k0 ops =>
+  | IWs sm lg k0 ops =>
+      (* the real WebsocketTransport, its traffic log as configured; the log file's own
+         outcome is irrelevant there (C08_ws_failure_reported): it is made to fail *)
       let so := fun k => if Nat.leb k0 k then WErr 0 else WOk in
-      let '(rs, st) := run (mkC RClient sm false CUp) so (fun _ => WOk) st0 ops in
+      let '(rs, st) := run (mkC RClient sm lg CUp true) so (fun _ => WErr 0) st0 ops in
       SL [SL (map result_sx rs); SS (stream so 0 (s_sock st));
           strs_sx (map snd (q_items (s_queue st)))]
   end.
